@@ -23,6 +23,19 @@ inductive Target where
   | sender | owner
 deriving DecidableEq, Repr
 
+/-- an operand of the comparison inside the peer filter: the sender of the message (the filter's peer
+    argument) or the peer field of the table entry found under the response's request ID -/
+inductive PeerTerm where
+  | sender | entryPeer
+deriving DecidableEq, Repr
+
+/-- the peer filter as written in the source:
+    `e, ok := table[response.RequestID()]; if !ok || <lhs> != <rhs> { continue }` -/
+structure FilterCond where
+  lhs : PeerTerm
+  rhs : PeerTerm
+deriving DecidableEq, Repr
+
 structure ExtDesc where
   hookPeer : Target
   updateTo : Target
